@@ -1,6 +1,8 @@
 import Driver.Proto
 import MesonModel.Sched.Model
 import MesonModel.Sched.Select
+import MesonModel.Sched.Report
+import MesonModel.Sched.Timeout
 /- driver commands of area `sched` (C12) -/
 namespace Driver.Sched
 open MesonModel.Sched Driver
@@ -62,6 +64,33 @@ def parseSlice (f : String) : Option (Nat × Nat) :=
 
 def showIdx (l : List Nat) : String := " ".intercalate (l.map toString)
 
+def showResults (l : List TestResult) : String :=
+  if l.isEmpty then "-" else ",".intercalate (l.map TestResult.name)
+
+def parseROp (w : String) : Option ROp :=
+  if w == "!" then some .reach else (TestResult.ofName? w).map ROp.result
+
+def showReport (h : Report) : String :=
+  let rows := " ".intercalate (h.tally.summaryRows.map (fun p => s!"{p.1}:{p.2}"))
+  s!"{showTally h.tally};{h.exitStatus};{rows};{showResults h.collected};{boolStr h.maxfailReached};{showResults h.logged};{h.tally.printedTotal}"
+
+def eventResults : List Event → List TestResult
+  | [] => []
+  | .result _ r :: es => r :: eventResults es
+  | _ :: es => eventResults es
+
+def parseFrac (f : String) : Option Frac :=
+  match f.trimAscii.toString.splitOn "/" with
+  | [a, b] => some ⟨intOf a, natOf b⟩
+  | _ => none
+
+def showFrac : Option Frac → String
+  | none => "none"
+  | some f => s!"{f.num}/{f.den}"
+
+def showWait : Option WaitOutcome → String
+  | none => "tie" | some .exited => "exited" | some .timedOut => "timedOut" | some .cancelled => "cancelled"
+
 def handle (cmd : String) (fs : List String) : String :=
   match cmd, fs with
   | "trace", [jobs, rep, maxfail, par, evs] =>
@@ -70,7 +99,11 @@ def handle (cmd : String) (fs : List String) : String :=
     | none => "bad-events"
     | some es =>
       match replay c es with
-      | .ok s => "ok " ++ showState c s
+      | .ok s =>
+        let rp := match Report.run c.maxfail {} ((eventResults es).map ROp.result) with
+          | some h => s!" collected={showResults h.collected} flag={boolStr h.maxfailReached} printed_total={h.tally.printedTotal} report_tally={showTally h.tally}"
+          | none => " collected=ERR:exit"
+        "ok " ++ showState c s ++ rp
       | .error (k, e) => s!"illegal {k} {showErr e}"
   | "config", [jobs, rep, maxfail, par] =>
     let c := mkConfig (natOf jobs) (natOf rep) (natOf maxfail) ((words par).map (· == "1"))
@@ -90,6 +123,16 @@ def handle (cmd : String) (fs : List String) : String :=
       | some t =>
         let rows := " ".intercalate (t.summaryRows.map (fun p => s!"{p.1}:{p.2}"))
         s!"{showTally t};{t.exitStatus};{rows};{boolStr (t == tallyOf l)}"
+  | "report", [maxfail, ops] =>
+    match (words ops).mapM parseROp with
+    | none => "bad-op"
+    | some l =>
+      match Report.run (natOf maxfail) {} l with
+      | none => "ERR:exit"
+      | some h => showReport h
+  | "limit", [inter, t, mult, dur] =>
+    let lim := runnerTimeout (inter == "1") (parseOptInt t) (parseFrac mult)
+    s!"{showFrac lim};{showWait (waitOutcome lim (natOf dur))}"
   | "suite", [sel, prjst] => boolStr (suiteMatches (decodeStr sel) (decodeStr prjst))
   | "select", [mainPrj, incl, excl, names, slice, tests] =>
     let ts := parseTests tests
